@@ -6,10 +6,11 @@ import (
 	"fmt"
 	"github.com/rs/zerolog/log"
 	"net/http"
+	neturl "net/url"
 )
 
 func (p *PcClient) scaleProcess(name string, scale int) error {
-	url := fmt.Sprintf("http://%s/process/scale/%s/%d", p.address, name, scale)
+	url := fmt.Sprintf("http://%s/process/scale/%s/%d", p.address, neturl.PathEscape(name), scale)
 	req, err := http.NewRequest(http.MethodPatch, url, nil)
 	if err != nil {
 		return err
